@@ -390,3 +390,62 @@ package server
 //@ loop 1 modifies fc.closeStreamWg, fresh
 //@ assert at call Send#0: offset <= fc.wal.LastOffset()
 //@ modifies fields(wal.wal), fc.closeStreamWg
+
+// ---------------------------------------------------------------- sessions: shadow keys (C14)
+
+// Keys under which a session and the shadow of an ephemeral record are stored.
+//@ ghostfun sessKey(int64) string
+//@ ghostfun shadowKey(int64, string) string
+
+//@ func SessionKey
+//@ trusted
+//@ pure
+//@ ensures result == sessKey(sessionId)
+
+//@ func ShadowKey
+//@ trusted
+//@ pure
+//@ ensures result == shadowKey(sessionId, key)
+//@ note trusted: fmt.Sprintf / url.PathEscape are outside the verified subset (no injectivity is assumed)
+
+// Removing the shadow of the record being overwritten or deleted: exactly the shadow of
+// the session that owned the stored record goes; nothing else changes.
+//
+//@ func deleteShadow(batch, key, existingEntry) (status, err)
+//@ property C14
+//@ requires batch != nil
+//@ ensures err == nil ==> status == 0
+//@ ensures err == nil && (existingEntry == nil || existingEntry.SessionId == nil) ==> forall k string :: ghset(present, batch, k) <==> old(ghset(present, batch, k))
+//@ ensures err == nil && existingEntry != nil && existingEntry.SessionId != nil ==> forall k string :: k != shadowKey(*existingEntry.SessionId, key) ==> (ghset(present, batch, k) <==> old(ghset(present, batch, k)))
+//@ ensures err == nil && existingEntry != nil && existingEntry.SessionId != nil && !old(ghset(present, batch, shadowKey(*existingEntry.SessionId, key))) ==> !ghset(present, batch, shadowKey(*existingEntry.SessionId, key))
+//@ modifies ghset(present, batch)
+
+// A put naming a session: rejected, writing nothing, when the session's key is not
+// there; otherwise ownership moves to the writer: the shadow of the previous owner goes,
+// the shadow of this session is there afterwards, nothing else changes.
+//
+//@ func sessionManagerUpdateOperationCallbackS.OnPutWithinSession(recv, batch, request, existingEntry) (status, err)
+//@ property C14
+//@ requires batch != nil && request != nil && request.SessionId != nil
+//@ ensures !batchSees(batch, sessKey(*request.SessionId)) ==> status == 3 && forall k string :: ghset(present, batch, k) <==> old(ghset(present, batch, k))
+//@ ensures err == nil && status == 0 ==> batchSees(batch, sessKey(*request.SessionId)) && ghset(present, batch, shadowKey(*request.SessionId, request.Key))
+//@ ensures err == nil && status == 0 ==> forall k string :: k != shadowKey(*request.SessionId, request.Key) && !(existingEntry != nil && existingEntry.SessionId != nil && k == shadowKey(*existingEntry.SessionId, request.Key)) ==> (ghset(present, batch, k) <==> old(ghset(present, batch, k)))
+//@ modifies ghset(present, batch)
+
+// A plain put takes an ephemeral record over: its shadow goes, nothing else changes; a
+// put within a session is OnPutWithinSession.
+//
+//@ func sessionManagerUpdateOperationCallbackS.OnPut(c, batch, request, existingEntry) (status, err)
+//@ property C14
+//@ requires batch != nil && request != nil
+//@ ensures request.SessionId == nil && err == nil ==> status == 0 && forall k string :: !(existingEntry != nil && existingEntry.SessionId != nil && k == shadowKey(*existingEntry.SessionId, request.Key)) ==> (ghset(present, batch, k) <==> old(ghset(present, batch, k)))
+//@ ensures request.SessionId != nil && !batchSees(batch, sessKey(*request.SessionId)) ==> status == 3 && forall k string :: ghset(present, batch, k) <==> old(ghset(present, batch, k))
+//@ ensures request.SessionId != nil && err == nil && status == 0 ==> ghset(present, batch, shadowKey(*request.SessionId, request.Key))
+//@ modifies ghset(present, batch)
+
+//@ func sessionManagerUpdateOperationCallbackS.OnDeleteWithEntry(recv, batch, key, value) (err)
+//@ property C14
+//@ requires batch != nil
+//@ ensures err == nil && (value == nil || value.SessionId == nil) ==> forall k string :: ghset(present, batch, k) <==> old(ghset(present, batch, k))
+//@ ensures err == nil && value != nil && value.SessionId != nil ==> forall k string :: k != shadowKey(*value.SessionId, key) ==> (ghset(present, batch, k) <==> old(ghset(present, batch, k)))
+//@ modifies ghset(present, batch)
